@@ -112,7 +112,11 @@ struct Acc {
 
 fn check(px: &[[f32; 3]], acc: &mut Acc) -> Result<(), String> {
     let n = px.len();
-    let (w, hgt) = if n % 3 == 0 { (n / 3, 3) } else { (n, 1) };
+    check_shaped(px, if n % 3 == 0 { (n / 3, 3) } else { (n, 1) }, acc)
+}
+
+fn check_shaped(px: &[[f32; 3]], (w, hgt): (usize, usize), acc: &mut Acc) -> Result<(), String> {
+    let n = px.len();
     let hsl = Hsl::from(LinearRgb::new(px.to_vec(), w, hgt).map_err(|e| format!("{e:?}"))?);
     if hsl.width() != w || hsl.height() != hgt || hsl.data().len() != n {
         return Err(format!("dims changed: {}x{}", hsl.width(), hsl.height()));
@@ -123,6 +127,9 @@ fn check(px: &[[f32; 3]], acc: &mut Acc) -> Result<(), String> {
     }
     for i in 0..n {
         let p = px[i];
+        if !p.iter().all(|v| (0.0..=1.0).contains(v)) {
+            continue; // a hostile companion, not a subject
+        }
         let g = hsl.data()[i];
         let want = lrgb_to_hsl(px64(p));
         let mut bad = false;
@@ -171,7 +178,7 @@ fn check(px: &[[f32; 3]], acc: &mut Acc) -> Result<(), String> {
 }
 
 pub fn c17(ctx: &Ctx) {
-    let total: u64 = ctx.arg_u64("pixels").unwrap_or(if ctx.flag("lite") { 1 << 22 } else { ctx.pick(1 << 26, 1 << 32) });
+    let total: u64 = ctx.arg_u64("pixels").unwrap_or(if ctx.flag("lite") { 1 << 22 } else { ctx.pick(1 << 28, 1 << 32) });
     let chunk: u64 = 65_521;
     let distinct = Distinct::new(ctx.pick(29, 33));
     let glob = Mutex::new(Acc { h: Worst::new(), s: Worst::new(), l: Worst::new(), rt: Worst::new(), range_bad: [0; 4], first_range_bad: None, sext: [0; 7] });
@@ -208,6 +215,10 @@ pub fn c17(ctx: &Ctx) {
                 v.push(px[i]);
             }
             let _ = check(&v, &mut acc);
+            // letterboxed: whole rows of black above and between the rows of subjects, none below
+            let wrow = [61usize, 64, 17][(ck / 3 % 3) as usize];
+            let (v, _idx, h) = letterbox(&px[..px.len().min(6000)], wrow, [0.0; 3]);
+            let _ = check_shaped(&v, (wrow, h), &mut acc);
         } else if ck % 3 == 2 {
             let (mut i, mut len) = (0usize, 1usize);
             while i + len <= px.len().min(2048) {
@@ -215,6 +226,18 @@ pub fn c17(ctx: &Ctx) {
                 i += len;
                 len = len % 7 + 1;
             }
+        } else {
+            // hostile companions (NaN, infinities, out-of-range) between the subjects
+            let hostile = [[f32::NAN; 3], [f32::INFINITY, 0.5, 0.5], [0.5, f32::NEG_INFINITY, 2.0], [-1.0, 0.5, 0.5], [f32::NAN, 0.0, 1.0], [1e30, 0.0, 0.0]];
+            let m = px.len().min(6000);
+            let mut v = Vec::with_capacity(m + m / 3 + 1);
+            for i in 0..m {
+                v.push(px[i]);
+                if i % 3 == 1 {
+                    v.push(hostile[(i / 3) % hostile.len()]);
+                }
+            }
+            let _ = check(&v, &mut acc);
         }
         let mut g = glob.lock().unwrap();
         g.h.merge(&acc.h);
@@ -318,10 +341,24 @@ pub fn c17(ctx: &Ctx) {
         hsl_in.push([(rng.unit() * 360.0) as f32 * 0.99999, rng.unit() as f32, if rng.coin() { 0.0 } else { 1.0 }]);
     }
     hsl_in.retain(|p| p[0] >= 0.0 && p[0] < 360.0);
+    // every anchor is preceded by a fully saturated mid-lightness pixel (not judged): nothing of it may stick to the anchor
+    {
+        let mut v = Vec::with_capacity(hsl_in.len() * 2);
+        for (i, p) in hsl_in.iter().enumerate() {
+            if i % 2 == 0 {
+                v.push([(i % 360) as f32, 1.0, 0.5]);
+            }
+            v.push(*p);
+        }
+        hsl_in = v;
+    }
     let n = hsl_in.len();
     let out = LinearRgb::from(Hsl::new(hsl_in.clone(), n, 1).unwrap());
     let mut wa = Worst::<[f32; 3]>::new();
     for i in 0..n {
+        if hsl_in[i][2] != 0.0 && hsl_in[i][2] != 1.0 {
+            continue; // a coloured companion
+        }
         let want = hsl_in[i][2] as f64;
         for c in 0..3 {
             wa.upd((out.data()[i][c] as f64 - want).abs(), hsl_in[i]);
